@@ -34,6 +34,9 @@ pub fn for_each_line(path: &str, mut f: impl FnMut(usize, Value)) {
 }
 
 pub fn silence_panics() {
+    if std::env::var("VH_PANIC_VERBOSE").is_ok() {
+        return;
+    }
     std::panic::set_hook(Box::new(|_| {}));
 }
 
@@ -52,7 +55,12 @@ pub struct Summary {
 impl Summary {
     pub fn mismatch(&mut self, v: Value) {
         self.mismatch_count += 1;
-        if self.mismatches.len() < 8 {
+        // keep at most 2 examples per distinct kind of mismatch ("field")
+        let field = v["field"].as_str().unwrap_or("").to_string();
+        let key = format!("mismatch_kind::{field}");
+        let seen = self.extra.get(&key).and_then(Value::as_u64).unwrap_or(0);
+        self.extra.insert(key, json!(seen + 1));
+        if seen < 2 && self.mismatches.len() < 24 {
             self.mismatches.push(v);
         }
     }
@@ -110,4 +118,51 @@ pub fn arg_value(args: &[String], key: &str) -> Option<String> {
 
 pub fn arg_u64(args: &[String], key: &str, default: u64) -> u64 {
     arg_value(args, key).and_then(|v| v.parse().ok()).unwrap_or(default)
+}
+
+/// Per-process watchdog: code under test that never returns (e.g. an endless bucket scan) must end
+/// up as a verdict, not as a stuck check. The worker announces what it is about to run; if the
+/// announcement does not change for `limit` seconds the process prints a summary with a `hang`
+/// entry and exits.
+pub mod watchdog {
+    use std::sync::atomic::{AtomicU64, Ordering};
+    use std::sync::Mutex;
+    static TICK: AtomicU64 = AtomicU64::new(0);
+    static WHAT: Mutex<String> = Mutex::new(String::new());
+
+    pub fn start(limit_secs: u64) {
+        std::thread::spawn(move || {
+            let mut last = TICK.load(Ordering::Relaxed);
+            let mut idle = 0u64;
+            loop {
+                std::thread::sleep(std::time::Duration::from_millis(500));
+                let cur = TICK.load(Ordering::Relaxed);
+                if cur == last {
+                    idle += 1;
+                } else {
+                    idle = 0;
+                    last = cur;
+                }
+                if idle >= limit_secs * 2 {
+                    let what = WHAT.lock().map(|w| w.clone()).unwrap_or_default();
+                    let v: serde_json::Value = serde_json::from_str(&what).unwrap_or(serde_json::Value::String(what));
+                    println!("{}", serde_json::json!({"hang": v, "behaviours": 0, "replays": 0, "checks": 0, "nontrivial": 0, "mismatch_count": 0, "mismatches": [], "samples": [], "extra": {}}));
+                    std::process::exit(0);
+                }
+            }
+        });
+    }
+
+    /// cheap progress tick (call often)
+    pub fn tick() {
+        TICK.fetch_add(1, Ordering::Relaxed);
+    }
+
+    /// announce the unit of work that is about to run (JSON text)
+    pub fn enter(what: impl FnOnce() -> String) {
+        if let Ok(mut w) = WHAT.try_lock() {
+            *w = what();
+        }
+        tick();
+    }
 }
